@@ -333,7 +333,8 @@ fn retraction(c: &mut Case<'_>, name: &str, codec: &XmlCodec, class: &str, doc: 
             };
             let core_err = xmlcanon::parse(core).err();
             let kind_of = |e: &str| -> String { e.split(" at ").next().unwrap_or("syntax").chars().map(|ch| if ch.is_ascii_alphanumeric() { ch } else { '-' }).collect() };
-            let sig = if e.contains("no root element") || !has_elem {
+            let sig = if e.contains("no root element") || !has_elem || name == "GetBucketLocationOutput" {
+                // (the hand-written decoder of GetBucketLocationOutput does not anchor a root element at all: one root cause)
                 format!("accepts-malformed:no-root:{name}")
             } else if lead {
                 "accepts-malformed:text-before-root".to_owned()
